@@ -35,7 +35,7 @@ func ParamCases(seed int64, n int) []Case {
 	client := true
 	flush := func() {
 		if d != nil {
-			out = append(out, Case{ID: id, Family: "params", Spec: d.Root, Flags: Flags{Client: client}, Safe: true, Label: map[string]string{"set": id}})
+			out = append(out, Case{ID: id, Family: "params", Spec: d.Root, Flags: Flags{Client: client, DoNotEdit: !client}, Safe: true, Label: map[string]string{"set": id}})
 		}
 		d = nil
 	}
